@@ -104,6 +104,11 @@ def _case(draw):
         mols.append({"E": draw(st.integers(11800, 12400)), "d": d, "w": draw(st.integers(80, 250)),
                      "deph": draw(st.integers(50, 200))})
     kind = draw(st.sampled_from(["prefactor", "symmetry", "additivity"]))
+    if draw(st.sampled_from([False, False, True])):
+        # two molecules with exactly the same transition energy (their widths and dephasing times differ)
+        mols[1]["E"] = mols[0]["E"]
+        if mols[1]["w"] == mols[0]["w"]:
+            mols[1]["w"] = mols[0]["w"] + 35
     J = [[0] * n for _ in range(n)]
     if kind != "additivity":
         for i in range(n):
@@ -117,6 +122,13 @@ def _case(draw):
             v = [1.0, 0.0, 0.0]
         nv = math.sqrt(sum(x * x for x in v))
         pols.append([x / nv for x in v])
+    if draw(st.sampled_from([False, False, True])):
+        # field vectors of general length (the prefactor is linear in each of them)
+        k = draw(st.integers(0, 3))
+        f = draw(st.sampled_from([2.0, 0.5, 1.5]))
+        pols[k] = [x * f for x in pols[k]]
+        k2 = draw(st.integers(0, 3))
+        pols[k2] = [x * 1.25 for x in pols[k2]]
     q = draw(st.tuples(st.integers(-3, 3), st.integers(-3, 3), st.integers(-3, 3), st.integers(-3, 3)))
     if all(x == 0 for x in q):
         q = (1, 1, 0, 0)
@@ -130,6 +142,8 @@ def _case(draw):
             # another detection polarisation, "all" = four other polarisations; and a second polarisation tuple with
             # which existing pathway objects are averaged again on the re-set lab object
             "lab_history": draw(st.sampled_from([None, None, "detection", "all", "fields", "fields-prop"])),
+            # the aggregate object was asked for an excited initial state before the response is calculated
+            "agg_history": draw(st.sampled_from([None, None, "impulsive_excitation", "thermal_excited_state"])),
             "reaverage": draw(st.booleans())}
 
 
@@ -153,7 +167,7 @@ class ReadChanged(HarnessError):
 
 
 def response(qr, mols, J, pols, t2i, shape, mult=2, want_pathways=False, deph_common=None, read_order=None,
-             lab_history=None, want_lab=False, lab_route=None):
+             lab_history=None, want_lab=False, lab_route=None, agg_history=None):
     """(REPH, NONR, TOTAL [, pathways, aggregate]) of the mock calculator for the given system"""
     from quantarhei.spectroscopy.mocktwodcalculator import MockTwoDResponseCalculator
     n = len(mols)
@@ -187,6 +201,9 @@ def response(qr, mols, J, pols, t2i, shape, mult=2, want_pathways=False, deph_co
     with qr.energy_units("1/cm"):
         calc.bootstrap(rwa=12100.0, shape=shape)
     agg.diagonalize()
+    if agg_history:
+        # (the usual way to get an initial condition for a propagation of the same system)
+        agg.get_DensityMatrix(condition_type=agg_history, temperature=300.0)
     lab = qr.LabSetup()
     for hp in (lab_history or []):
         # the laboratory set-up object had other polarisations before (e.g. an analyser scan)
@@ -251,7 +268,8 @@ def check_case(case, ctx):
         ok, r = guarded(ctx, "response", lambda: response(qr, mols, J, pols, t2i, shape, want_pathways=True, deph_common=dc,
                                                           read_order=case.get("read_order"), lab_history=hist,
                                                           want_lab=True,
-                                                          lab_route=case.get("lab_history")), tag)
+                                                          lab_route=case.get("lab_history"),
+                                                          agg_history=case.get("agg_history")), tag)
     except ReadChanged as e:
         ctx.fail("reading-changes-the-response", tag, part=e.part, change=e.dev, order="".join(e.order))
         return
